@@ -150,8 +150,9 @@ func controllingIfs(b *ssa.BasicBlock) []ctrl {
 			continue
 		}
 		t, f := d.Succs[0], d.Succs[1]
-		td := t == b || t.Dominates(b)
-		fd := f == b || f.Dominates(b)
+		// a successor that also dominates d itself is a loop header reached by a back edge, not a branch arm
+		td := (t == b || t.Dominates(b)) && !t.Dominates(d)
+		fd := (f == b || f.Dominates(b)) && !f.Dominates(d)
 		// a successor only "owns" b if it is not also reachable by the other edge (single predecessor)
 		if td && !fd && len(t.Preds) == 1 {
 			out = append(out, ctrl{iff, 0})
